@@ -21,13 +21,12 @@ Tags of the listed findings (known_findings.d/types2.json); anything else is rep
   dt-day-overflow       date-and-time: day 30 of February etc. normalised instead of refused (libyang's unit tests require it)
   dt-sort-eq            date-and-time: sort callback says equal for values the compare callback distinguishes (unit tests require it)
   dt-year-10000         date-and-time: canonical string with a 5-digit year is not accepted again
-  dt-zone-hour          date-and-time: negative time zone offsets -24:00 .. -99:00 accepted (patch types2-9)
   idref-empty-prefix    identityref value :name accepted
 Retired tags (fixed in /repo, the regression cases stay in the generators and a reappearance is a violation):
   binary-pad-bits c0ee3aa (non-zero unused base64 bits: canonical string now re-encoded), str-nonchar d2cc93f
   (noncharacters refused by ly_getutf8/ly_checkutf8), yang-plane4-char f25b870, dt-str2time-overread 9ddb75e,
   json-int64-base0 5c9a53f, dt-lexical 507eb73 (date-and-time pattern checked), dt-sort-overflow 33f29b0,
-  idref-any-base f805b4f (identityref derived from all bases).
+  idref-any-base f805b4f (identityref derived from all bases), dt-zone-hour 7817ee6 (offset hour below -23).
 
 Type names are those of the table TYPES in impl/t_types2.c (module types2, prefix t2)."""
 import base64
@@ -1286,8 +1285,6 @@ class DerivedRfc:
                 m = t and re.fullmatch(r"(\d{4})-(\d{2})-(\d{2})T\d{2}:\d{2}:\d{2}(\.\d+)?(Z|[+-]\d{2}:\d{2})", t)
                 if m and 1 <= int(m.group(2)) <= 12 and calendar.monthrange(int(m.group(1)) or 4, int(m.group(2)))[1] < int(m.group(3)) <= 31:
                     return "dt-day-overflow"
-                if m and re.fullmatch(r"-(2[4-9]|[3-9][0-9]):[0-5][0-9]", m.group(5)) and ref_derived("dt", (t[:-6] + "-23:00").encode()) not in (None, b"?"):
-                    return "dt-zone-hour"          # negative offset hour below -23 (only the upper bound is checked)
                 return None
             if len(tok) == 2 and tok[1] == "E" and unhex(tok[0]).startswith(b"10000-"):
                 return "dt-year-10000"
